@@ -26,8 +26,8 @@ Definition kind_n (k : kind) : N := match k with KV1 => 0 | KV2 => 1 | KDC => 2 
 Definition dflt_n (d : dflt) : N := match d with DNo => 0 | DNone => 1 | DVal => 2 end.
 Definition nullable_n (n : option bool) : N := match n with None => 0 | Some true => 1 | Some false => 2 end.
 
-(* the same mixed-radix key the reflector writes *)
-Definition key (f : flags) : N :=
+(* the same mixed-radix cell_key the reflector writes *)
+Definition cell_key (f : flags) : N :=
   ((((((((kind_n (f_kind f) * 2 + b2n (f_req f)) * 3 + dflt_n (f_dflt f)) * 3 + nullable_n (f_nullable f)) * 2
         + b2n (f_thn f)) * 2 + b2n (f_dtopt f)) * 2 + b2n (f_sdn f)) * 2 + b2n (f_ua f)) * 2 + b2n (f_constr f)) * 2
   + b2n (f_udk f).
@@ -112,4 +112,4 @@ Definition all_opts : list opts :=
 Definition all_kinds := [KV1; KV2; KDC; KTD; KMS].
 
 Definition check_all (t : list (N * rend)) (p : kind -> member -> opts -> option rend -> bool) : bool :=
-  forallb (fun k => forallb (fun m => forallb (fun o => p k m o (lookup t (key (flags_of k m o)))) all_opts) all_members) all_kinds.
+  forallb (fun k => forallb (fun m => forallb (fun o => p k m o (lookup t (cell_key (flags_of k m o)))) all_opts) all_members) all_kinds.
